@@ -324,9 +324,13 @@ def c14(run, tier):
     for i in range(Q(tier, 40, 400)):
         nf, n, prints = shapes[i % len(shapes)]
         one_run(nf, n, prints, {"XSEL_VERIF_YIELD": str(run.seed * 1000 + i)}, "yield", big=(i % 7 == 0))
+    # (c) many small files: contention on stdout and on the shared bindings
+    for i in range(Q(tier, 3, 20)):
+        one_run(Q(tier, 150, 400), 8, set(range(1, Q(tier, 150, 400) + 1)), {"XSEL_VERIF_YIELD": str(run.seed * 77 + i)}, "many")
     # all hook traces are judged by Trace_CliPool, one TLC run per configuration
     for (nf, n, conc, prints), lst in traces.items():
-        tf = os.path.join(run.work, "cli-%d-%d-%s.ndjson" % (nf, n, "".join(map(str, prints))))
+        import hashlib
+        tf = os.path.join(run.work, "cli-%d-%d-%s.ndjson" % (nf, n, hashlib.sha1(repr(prints).encode()).hexdigest()[:8]))
         with open(tf, "w") as f:
             f.write(json.dumps({"point": "config", "nf": nf, "n": n, "conc": conc, "prints": list(prints)}) + "\n")
             for k, evs in enumerate(lst):
